@@ -18,7 +18,9 @@ type EndsParams struct {
 	Depth int `json:"depth"`
 }
 
-type FiniteParams struct{}
+type FiniteParams struct {
+	Empty bool `json:"empty"` // a fourth assigned vBucket that has no events at all (high seqno 0)
+}
 
 type ReopenFailParams struct {
 	Failures int `json:"failures"`
@@ -50,7 +52,9 @@ func init() {
 	}
 	scenarios["c12_finite"] = func(raw json.RawMessage) *vrt.Scenario {
 		// no early-timer deviations here: they only turn the start-up requests into timeouts (covered by C15/C20)
-		return &vrt.Scenario{Name: "c12_finite", Main: finiteMain, FreeChoices: true, MaxSteps: 400000, NoTimerAlt: true}
+		var p FiniteParams
+		_ = json.Unmarshal(raw, &p)
+		return &vrt.Scenario{Name: "c12_finite", Main: func() { finiteMain(p) }, FreeChoices: true, MaxSteps: 400000, NoTimerAlt: true}
 	}
 	scenarios["c12_reopenfail"] = func(raw json.RawMessage) *vrt.Scenario {
 		var p ReopenFailParams
@@ -81,8 +85,10 @@ func init() {
 			out := []Instance{
 				{Scenario: "c12_ends", Params: mustJSON(EndsParams{Depth: d}), Bound: 0, Shards: 8},
 				{Scenario: "c12_finite", Params: mustJSON(FiniteParams{}), Bound: b, Shards: 8},
+				{Scenario: "c12_finite", Params: mustJSON(FiniteParams{Empty: true}), Bound: b - 1, Shards: 8, Note: "one assigned vBucket has no events at all"},
 				{Scenario: "c12_conc", Params: mustJSON(struct{}{}), Bound: b - 1, Shards: 8, Note: "transient end (node 0) and final end (node 1) concurrently with each other and with events on a third vBucket"},
 			}
+			out = append(out, Instance{Scenario: "c12_afterrebalance", Params: mustJSON(struct{}{}), Bound: 0, Shards: 2, Note: "the stop rule in the sessions after 1..2 real rebalances"})
 			out = append(out, Instance{Scenario: "c12_duringopen", Params: mustJSON(struct{}{}), Bound: b - 1, Shards: 4, Note: "a stream ends while Open() still waits for another vBucket (start-up and re-open after a rebalance)"})
 			for f := 1; f <= 5; f++ {
 				out = append(out, Instance{Scenario: "c12_reopenfail", Params: mustJSON(ReopenFailParams{Failures: f}), Bound: 0})
@@ -217,9 +223,13 @@ func endsMain(p EndsParams) {
 
 // finite mode: vb0 already at its high seqno, vb1 two events below, vb2 far below with a transient end
 // in the middle; the client must stop exactly after every event up to the sampled high seqno was delivered.
-func finiteMain() {
+func finiteMain(p FiniteParams) {
 	resetGlobals()
-	o := EnvOpts{Vbs: 3, CheckpointType: "manual", Mode: config.DcpModeFinite, WrapMeta: true}
+	nvb := uint16(3)
+	if p.Empty {
+		nvb = 4 // vb3 has no events at all
+	}
+	o := EnvOpts{Vbs: int(nvb), CheckpointType: "manual", Mode: config.DcpModeFinite, WrapMeta: true}
 	c := NewCluster(&o)
 	for s := uint64(1); s <= 3; s++ {
 		c.Append(0, marker(s, s), symbolPacket("M", s))
@@ -250,8 +260,8 @@ func finiteMain() {
 	c.WaitIdle()
 	vrt.Sleep(3e9)
 	vrt.Quiesce()
-	want := map[uint16][]uint64{0: nil, 1: {3, 4}, 2: {1, 2, 3, 4, 5}}
-	for vb := uint16(0); vb < 3; vb++ {
+	want := map[uint16][]uint64{0: nil, 1: {3, 4}, 2: {1, 2, 3, 4, 5}, 3: nil}
+	for vb := uint16(0); vb < nvb; vb++ {
 		var got []uint64
 		for _, d := range e.Cons.Events {
 			if d.Vb == vb {
@@ -277,7 +287,7 @@ func finiteMain() {
 		}
 	}
 	for _, r := range c.RequestsOf("openstream") {
-		hi := map[uint16]uint64{0: 3, 1: 4, 2: 5}[r.Vb]
+		hi := map[uint16]uint64{0: 3, 1: 4, 2: 5, 3: 0}[r.Vb]
 		if r.Args[3] != hi {
 			vrt.Failf("finite mode: vb%d requested with end %d, want the sampled high seqno %d", r.Vb, r.Args[3], hi)
 		}
@@ -536,6 +546,65 @@ func init() {
 				}
 			}
 			vrt.SetOutcome(desc)
+		}}
+	}
+}
+
+// c12_afterrebalance: the "stops on its own iff every assigned vBucket ended for good" rule in the sessions
+// that follow 1..2 real rebalances (Close + re-Open of the same stream object): every vBucket then ends
+// with an enumerated final cause in an enumerated order (optionally one transient end first); the stop
+// signal must be raised exactly when the last one ended, and the active count must follow.
+func init() {
+	scenarios["c12_afterrebalance"] = func(raw json.RawMessage) *vrt.Scenario {
+		return &vrt.Scenario{Name: "c12_afterrebalance", FreeChoices: true, NoTimerAlt: true, MaxSteps: 400000, Main: func() {
+			resetGlobals()
+			o := EnvOpts{Vbs: 3, CheckpointType: "manual", WrapMeta: true, RebalanceDelay: time.Second}
+			c := NewCluster(&o)
+			e := NewEnv(c, o)
+			e.Cons.AutoAck = true
+			e.Stream.Open()
+			c.WaitIdle()
+			nreb := 1 + vrt.Choose(2, true, "rebalances")
+			for i := 0; i < nreb; i++ {
+				e.Stream.Rebalance()
+				vrt.Sleep(3 * time.Second)
+				vrt.Quiesce()
+				c.WaitIdle()
+			}
+			if vrt.Closed(e.StopCh) {
+				vrt.Failf("%d rebalance(s) stopped the client", nreb)
+				return
+			}
+			if got := activeCount(e); got != 3 {
+				vrt.Failf("after %d rebalance(s) the active stream count is %d, want 3", nreb, got)
+			}
+			ps := perms(3)
+			order := ps[vrt.Choose(len(ps), true, "end-order")]
+			fc := endCauses[5+vrt.Choose(4, true, "final-cause")]
+			transientFirst := vrt.Choose(2, true, "transient-first") == 1
+			if transientFirst {
+				c.EndStream(uint16(order[0]), gocbcore.ErrDCPStreamTooSlow)
+				vrt.Sleep(2 * time.Second)
+				vrt.Quiesce()
+				c.WaitIdle()
+			}
+			for i, vb := range order {
+				if !c.EndStream(uint16(vb), fc.err) {
+					vrt.Failf("after %d rebalance(s): vb%d is not streamed", nreb, vb)
+					return
+				}
+				vrt.Sleep(time.Second)
+				vrt.Quiesce()
+				c.WaitIdle()
+				vrt.Quiesce()
+				if got := activeCount(e); int(got) != 2-i {
+					vrt.Failf("after %d rebalance(s) and %d final end(s) (%s): active stream count %d, want %d", nreb, i+1, fc.name, got, 2-i)
+				}
+				if stopped := vrt.Closed(e.StopCh); stopped != (i == 2) {
+					vrt.Failf("after %d rebalance(s) and %d of 3 vBuckets ended for good (%s): client stop signalled = %v", nreb, i+1, fc.name, stopped)
+				}
+			}
+			vrt.SetOutcome(fmt.Sprintf("%d %v %s %v", nreb, order, fc.name, transientFirst))
 		}}
 	}
 }
